@@ -97,6 +97,22 @@ proof fn lemma_one_step_is_two_step(i: Seq<u8>, one: IResult<&[u8], TlsPlaintext
     assert(raw->hdr == hdr);
 }
 
+// C06 LOCALITY: a record parsed from b is parsed identically from b ++ x; once b holds the declared length the
+// outcome class does not change either.
+proof fn lemma_plaintext_local(b: Seq<u8>, x: Seq<u8>, r1: IResult<&[u8], TlsPlaintext>, r2: IResult<&[u8], TlsPlaintext>)
+    requires plaintext_post(b, r1), plaintext_post(b + x, r2), b.len() >= 5, b.len() >= 5 + be16s(b, 3),
+    ensures
+        r1 is Ok <==> r2 is Ok,
+        r1 is Ok ==> r2->Ok_0.1.hdr == r1->Ok_0.1.hdr && r2->Ok_0.1.msg == r1->Ok_0.1.msg && r2->Ok_0.0@ =~= r1->Ok_0.0@ + x,
+{
+    let bx = b + x;
+    assert(bx[0] == b[0] && bx[1] == b[1] && bx[2] == b[2] && bx[3] == b[3] && bx[4] == b[4]);
+    let l = be16s(b, 3);
+    assert(be16s(bx, 3) == l && be16s(bx, 1) == be16s(b, 1));
+    assert(bx.subrange(5, 5 + l) =~= b.subrange(5, 5 + l));
+    assert(bx.subrange(5 + l, bx.len() as int) =~= b.subrange(5 + l, b.len() as int) + x);
+}
+
 // C02 for plaintext: Incomplete iff strict prefix of header+payload
 proof fn lemma_plaintext_incomplete_iff_prefix(i: Seq<u8>, r: IResult<&[u8], TlsPlaintext>)
     requires plaintext_post(i, r),
